@@ -89,7 +89,81 @@ func cp(b []byte) []byte { return append([]byte(nil), b...) }
 
 // ---- entry points ----
 
+// canaries: after a decoder has been handed an input - mostly a malformed one - the next valid input must decode to
+// what it always decodes to (nothing left behind in pooled buffers, reused scratch space, package-level state).
+var (
+	canaryWKBBytes  = wkb.MustMarshal(orb.MultiPolygon{{{{1, 2}, {3, 4}, {5, 6}, {1, 2}}, {{7, 8}, {9, 10}, {7, 8}}}, {{{11, 12}}}})
+	canaryWKBWant   = refgeom.Bits(orb.MultiPolygon{{{{1, 2}, {3, 4}, {5, 6}, {1, 2}}, {{7, 8}, {9, 10}, {7, 8}}}, {{{11, 12}}}})
+	canaryWKT       = "MULTIPOLYGON(((1 2,3 4,5 6,1 2),(7 8,9 10,7 8)),((11 12)))"
+	canaryJSON      = []byte(`{"type":"Feature","id":7,"bbox":[1,2,3,4],"geometry":{"type":"MultiPolygon","coordinates":[[[[1,2],[3,4],[5,6],[1,2]],[[7,8],[9,10],[7,8]]],[[[11,12]]]]},"properties":{"k":"v"}}`)
+	canaryTile      []byte
+	canaryTileWant  string
+)
+
+func init() {
+	f := geojson.NewFeature(orb.MultiPolygon{{{{0, 0}, {10, 0}, {10, 10}, {0, 10}, {0, 0}}, {{2, 2}, {2, 4}, {4, 4}, {4, 2}, {2, 2}}}, {{{20, 20}, {30, 20}, {30, 30}, {20, 20}}}})
+	f.ID = 9
+	f.Properties["a"], f.Properties["b"] = "x", 1.5
+	l := &mvt.Layer{Name: "canary", Version: 2, Extent: 4096, Features: []*geojson.Feature{f, geojson.NewFeature(orb.LineString{{1, 1}, {5, 5}})}}
+	canaryTile, _ = mvt.Marshal(mvt.Layers{l})
+	ls, _ := mvt.Unmarshal(canaryTile)
+	canaryTileWant = tileString(ls)
+}
+
+func tileString(ls mvt.Layers) string {
+	var sb strings.Builder
+	for _, l := range ls {
+		fmt.Fprintf(&sb, "%s/%d/%d:", l.Name, l.Version, l.Extent)
+		for _, f := range l.Features {
+			fmt.Fprintf(&sb, "%v|%s|%v;", f.ID, refgeom.Bits(f.Geometry), f.Properties)
+		}
+	}
+	return sb.String()
+}
+
+// canaryEvery runs the canary of a format after every n-th input of that format on this worker (a decoder that is
+// left in a bad state stays in it until something resets it; the next canary on the worker sees it).
+func canaryEvery(c *mc.Ctx, n int, format string, input func() string) {
+	k := (c.Worker%64)*4 + map[string]int{"wkb": 0, "wkt": 1, "mvt": 2, "geojson": 3}[format]
+	if canaryCounts[k]++; canaryCounts[k]%n == 0 {
+		canary(c, format, input)
+	}
+}
+
+var canaryCounts [256]int
+
+func canary(c *mc.Ctx, format string, input func() string) {
+	defer func() {
+		if r := recover(); r != nil {
+			c.Failf("canary:"+format, "after the input %s a valid %s document makes the decoder panic: %v", input(), format, r)
+		}
+	}()
+	switch format {
+	case "wkb":
+		g, err := wkb.Unmarshal(canaryWKBBytes)
+		g2, _, err2 := ewkb.NewDecoder(bytes.NewReader(canaryWKBBytes)).Decode()
+		if err != nil || err2 != nil || refgeom.Bits(g) != canaryWKBWant || refgeom.Bits(g2) != canaryWKBWant {
+			c.Failf("canary:wkb", "after the input %s a valid multi-polygon decodes to %v (%v) / %v (%v)", input(), g, err, g2, err2)
+		}
+	case "wkt":
+		if g, err := wkt.Unmarshal(canaryWKT); err != nil || refgeom.Bits(g) != canaryWKBWant {
+			c.Failf("canary:wkt", "after the input %s the text %s parses to %v (%v)", input(), canaryWKT, g, err)
+		}
+	case "mvt":
+		ls, err := mvt.Unmarshal(canaryTile)
+		if err != nil || tileString(ls) != canaryTileWant {
+			c.Failf("canary:mvt", "after the input %s a valid tile decodes to %s (%v), want %s", input(), tileString(ls), err, canaryTileWant)
+		}
+	case "geojson":
+		f, err := geojson.UnmarshalFeature(canaryJSON)
+		if err != nil || f.ID != float64(7) || len(f.BBox) != 4 || f.Properties["k"] != "v" || refgeom.Bits(f.Geometry) != canaryWKBWant {
+			c.Failf("canary:geojson", "after the input %s a valid feature decodes to %+v (%v)", input(), f, err)
+		}
+	}
+}
+
 func decodeMVT(c *mc.Ctx, b []byte) (ok bool) {
+	defer canaryEvery(c, 256, "mvt", hx(b))
 	guard(c, "mvt.Unmarshal", len(b), hx(b), func() {
 		ls, err := mvt.Unmarshal(cp(b))
 		ok = err == nil && len(ls) > 0
@@ -109,6 +183,7 @@ var wkbDsts = []func() interface{}{
 }
 
 func decodeWKB(c *mc.Ctx, b []byte, level int) (ok bool) {
+	defer canaryEvery(c, 128, "wkb", hx(b))
 	guard(c, "wkb.Unmarshal", len(b), hx(b), func() {
 		g, err := wkb.Unmarshal(cp(b))
 		ok = err == nil
@@ -147,6 +222,7 @@ func decodeWKB(c *mc.Ctx, b []byte, level int) (ok bool) {
 
 func decodeWKT(c *mc.Ctx, s string) (ok bool) {
 	in := func() string { return fmt.Sprintf("%q", s) }
+	defer canaryEvery(c, 16, "wkt", in)
 	guard(c, "wkt.Unmarshal", len(s), in, func() {
 		g, err := wkt.Unmarshal(s)
 		ok = err == nil
@@ -171,6 +247,7 @@ func decodeJSON(c *mc.Ctx, doc []byte) (ok bool) {
 		}
 		return string(doc)
 	}
+	defer canary(c, "geojson", in)
 	guard(c, "geojson.UnmarshalGeometry", len(doc), in, func() {
 		g, err := geojson.UnmarshalGeometry(doc)
 		if err == nil && g != nil {
